@@ -257,7 +257,7 @@ func TestC05(t *testing.T) {
 	// ---- decode stage: seeded affine sample of the full product, through Decode -----------
 	{
 		const space = 729 * 101 * 1921
-		total := uint64(pick(200000, 2000000))
+		total := uint64(pick(200000, 4000000))
 		const a = 1000003 // prime; the index space factors into 3, 17, 101, 113
 		bb := mix(uint64(seed), 0xc05) % space
 		var ev2, nt2 int64
@@ -303,7 +303,7 @@ func TestC05(t *testing.T) {
 	}
 
 	// ---- rapid: random vectors (shrinkable) ------------------------------------------------
-	c.rapidStage("rapid", pick(5000, 50000), func(rt *rapid.T) {
+	c.rapidStage("rapid", pick(5000, 200000), func(rt *rapid.T) {
 		vec := gen.ValidV2(spec.Environmental).Draw(rt, "vector")
 		cs := scoreCase2{Level: 2, NilRecv: rapid.Bool().Draw(rt, "nilrecv"), Input: vec.String()}
 		var f fieldCase2
